@@ -902,6 +902,13 @@ namespace {
    template<class Seq>
    void obs_growth(Ctx& c, const char* seqname, const Seq& members, const ipr::Product& ty)
    {
+      // the newest member is read FIRST, directly at its index (component of the type, then the member), before any traversal:
+      // positional access right after an addition must not depend on where an earlier traversal stopped
+      std::string lasttype = "-", lastelem = "-";
+      if (members.size() > 0) {
+         lasttype = verif::guard([&] { return c.ob.show(ty.elements().get(ty.elements().size() - 1)); });
+         lastelem = verif::guard([&] { return c.ob.show(members.get(members.size() - 1)); });
+      }
       std::string m = "[", mt = "[";
       std::size_t i = 0;
       for (auto& d : members) {
@@ -910,7 +917,8 @@ namespace {
          mt += verif::guard([&] { return c.ob.show(d.type()); });
       }
       std::cout << "G obs " << seqname << " size=" << c.ob.show(members.size()) << " type=" << c.ob.show(ty) << " elems=" << m << "]"
-                << " elemtypes=" << mt << "]" << " types=" << c.ob.show(ty.elements()) << " tsize=" << c.ob.show(ty.size()) << '\n';
+                << " elemtypes=" << mt << "]" << " types=" << c.ob.show(ty.elements()) << " tsize=" << c.ob.show(ty.size())
+                << " lasttype=" << lasttype << " lastelem=" << lastelem << '\n';
    }
 
    void grow(Ctx& c, const std::string& kind, int n, int salt)
